@@ -269,6 +269,36 @@ theorem deepcopy_views (f : Nat) (h : Heap α) (o : Nat) (hw : TWF h f o) (d : N
   ⟨Corr.dump (deepcopyN_ext f h o) k f d o _ (deepcopyN_corr f h o hw) hd,
    dumpN_ext (deepcopyN_ext f h o) k d o hd⟩
 
+/-- **(3″) frames of `deepcopy()` at the level of both views**: after `c = r.deepcopy()`, own mutations (tokens or
+    names) of any group `x` of `c`'s token tree leave the view — tokens, names with all values, list-all names — of
+    EVERY well-formed object of the original heap unchanged; own mutations of any well-formed original object `y`
+    leave the view of every group of `c`'s token tree unchanged (positions inside the shared occurrence lists may be
+    rewritten, the values are not). -/
+theorem deepcopy_frame_views (f : Nat) (h : Heap α) (o : Nat) (hw : TWF h f o) (d : Nat) (hd : FD h.next h d o)
+    (x y : Nat) (hx : TReach (deepcopyN f h o).1 (deepcopyN f h o).2 x) (hy : WF h y) (ms : List (Mut α)) :
+    view (mutateAll (deepcopyN f h o).1 x ms) y = view h y ∧
+    view (mutateAll (deepcopyN f h o).1 y ms) x = view (deepcopyN f h o).1 x := by
+  have hc := deepcopyN_corr f h o hw
+  have e := deepcopyN_ext f h o
+  obtain ⟨_, b1, c1⟩ := TIn.reach hx f (Corr.fresh f o _ hc)
+  obtain ⟨x0, rx0, ex0⟩ := Corr.dict_shared_rev hx f o hc
+  obtain ⟨wl, wd, wo, wa⟩ := hy
+  have eo := e.objs y wo
+  have el := e.lists _ wl
+  have ed := e.dicts _ wd
+  have v0 : view (deepcopyN f h o).1 y = view h y := by simp only [view, eo, el, ed, e.occs]
+  have s1 : Sep (deepcopyN f h o).1 x y := by
+    refine ⟨?_, ?_, ?_⟩
+    · rw [eo]; omega
+    · rw [eo]; omega
+    · rw [eo, ed]; intro en hen; have := wa en hen; have := e.next; omega
+  have s2 : Sep (deepcopyN f h o).1 y x := by
+    refine ⟨?_, ?_, ?_⟩
+    · rw [eo]; omega
+    · rw [eo]; omega
+    · rw [ex0]; intro en hen; have := FD.entries rx0 d hd en hen; have := e.next; omega
+  exact ⟨by rw [frame_all ms _ _ _ s1, v0], frame_all ms _ _ _ s2⟩
+
 /-- **(5) `copy.deepcopy` / pickle of nested results rebuilds every reachable object**: no allocated cell or object
     of the original heap is written; every object reachable from the copy by ANY route (tokens, named values, at any
     depth) is a new object with a new list cell, a new dict cell and new occurrence lists; everything reachable
